@@ -16,6 +16,8 @@ import (
 	"unicode/utf8"
 
 	"github.com/robfig/gettext/po"
+	"github.com/robfig/soy/soymsg"
+	"github.com/robfig/soy/soymsg/pomsg"
 	"soyverif/internal/hx"
 )
 
@@ -298,6 +300,23 @@ func c11poFileResp(ms []po.Message) string {
 	return strings.Join(out, " ")
 }
 
+func c11poIsPlural(p soymsg.Part) bool { _, ok := p.(soymsg.PluralPart); return ok }
+
+func c11poParts(ps []soymsg.Part) string {
+	out := []string{hx.I(int64(len(ps)))}
+	for _, p := range ps {
+		switch p := p.(type) {
+		case soymsg.RawTextPart:
+			out = append(out, "T", hx.H(p.Text))
+		case soymsg.PlaceholderPart:
+			out = append(out, "P", hx.H(p.Name))
+		default:
+			out = append(out, "?")
+		}
+	}
+	return strings.Join(out, " ")
+}
+
 func c11PoEntryCorrespondence(e *env) {
 	type entry struct {
 		desc, v, ctxt, id, idp string
@@ -327,6 +346,16 @@ func c11PoEntryCorrespondence(e *env) {
 				en.v = e.rng.Pick([]string{"N", "N_1", "COUNT", "X_2"})
 				en.idp = "p" + c11poString(e, 5)
 			}
+			// the msgstr a translator filled in (none, empty, several forms)
+			for k := e.rng.Intn(4); k > 0; k-- {
+				en.strs = append(en.strs, e.rng.Pick([]string{"", "{NAME} x", "x{N_1}{", "{{A}}", "plain"})+c11poString(e, 3))
+			}
+			if len(f) > 0 && e.rng.Intn(8) == 0 {
+				en.num = f[len(f)-1].num // two entries with one id: the later one wins
+			}
+			if e.rng.Intn(40) == 0 {
+				en.num = 0 // pomsg refuses the catalogue
+			}
 			f = append(f, en)
 		}
 		files = append(files, f)
@@ -340,12 +369,17 @@ func c11PoEntryCorrespondence(e *env) {
 			if en.v != "" {
 				pl = "#1"
 			}
-			parts = append(parts, hx.H(en.desc), c11U(en.num), hx.H(en.v), pl, hx.H(en.ctxt), hx.H(en.id), hx.H(en.idp), "#0")
+			parts = append(parts, hx.H(en.desc), c11U(en.num), hx.H(en.v), pl, hx.H(en.ctxt), hx.H(en.id), hx.H(en.idp), hx.I(int64(len(en.strs))))
+			for _, str := range en.strs {
+				parts = append(parts, hx.H(str))
+			}
 			all = append(all, en.ctxt, en.id, en.idp)
+			all = append(all, en.strs...)
 		}
 		reqs[i] = strings.Join(parts, " ") + " " + c11poPrintable(all...)
 	}
 	res := e.m.Batch(reqs)
+	var loadReqs, loadWant, loadCase []string
 	for i, f := range files {
 		var pf po.File
 		for _, en := range f {
@@ -355,7 +389,7 @@ func c11PoEntryCorrespondence(e *env) {
 			}
 			pf.Messages = append(pf.Messages, po.Message{
 				Comment: po.Comment{ExtractedComments: strings.Split(en.desc, "\n"), References: []string{ref}},
-				Ctxt:    en.ctxt, Id: en.id, IdPlural: en.idp,
+				Ctxt:    en.ctxt, Id: en.id, IdPlural: en.idp, Str: en.strs,
 			})
 		}
 		var buf bytes.Buffer
@@ -382,6 +416,44 @@ func c11PoEntryCorrespondence(e *env) {
 		want := hx.H(buf.String()) + " " + c11poFileResp(back.Messages)
 		if got := strings.Join(res[i], " "); got != want {
 			c11Fail(e, hx.Violation{Kind: "mismatch", What: "po.File.WriteTo / po.Parse differ from the model on whole entries", Case: cs, Expected: got, Observed: want}, "")
+			continue
+		}
+		// the bytes through pomsg.Load (po.Parse + newBundle) against Model/PoBundle.v
+		ids := []string{hx.I(int64(len(f)))}
+		for _, en := range f {
+			ids = append(ids, c11U(en.num))
+		}
+		loadReqs = append(loadReqs, "c11_po_load "+hx.H(buf.String())+" "+strings.Join(ids, " "))
+		prov, lerr := pomsg.Load(c11Opener{"en": buf.String()}, []string{"en"})
+		resp := "err"
+		if lerr == nil {
+			out := []string{"ok"}
+			bun := prov.Bundle("en")
+			for _, en := range f {
+				m := bun.Message(en.num)
+				switch {
+				case m == nil:
+					out = append(out, "none")
+				case len(m.Parts) == 1 && c11poIsPlural(m.Parts[0]):
+					pp := m.Parts[0].(soymsg.PluralPart)
+					out = append(out, "L", hx.H(pp.VarName), hx.I(int64(len(pp.Cases))))
+					for _, c := range pp.Cases {
+						out = append(out, c11poParts(c.Parts))
+					}
+				default:
+					out = append(out, "S", c11poParts(m.Parts))
+				}
+			}
+			resp = strings.Join(out, " ")
+		}
+		loadWant = append(loadWant, resp)
+		loadCase = append(loadCase, cs)
+	}
+	lres := e.m.Batch(loadReqs)
+	for i := range loadReqs {
+		e.res.Count("poload"+loadCase[i], true, "model:po-load")
+		if got := strings.Join(lres[i], " "); got != loadWant[i] {
+			c11Fail(e, hx.Violation{Kind: "mismatch", What: "pomsg.Load (po.Parse + newBundle) differs from the model on the bytes of a catalogue", Case: loadCase[i], Expected: got, Observed: loadWant[i]}, "")
 		}
 	}
 	// (b) po.Parse on files as translators' tools leave them: every kind of comment line, lone "#", blank lines,
